@@ -50,6 +50,8 @@ func errClass(err error) string {
 			return "EBUSY"
 		case syscall.EIO:
 			return "EIO"
+		case syscall.EBADF:
+			return "EBADF"
 		case syscall.EXDEV:
 			return "EXDEV"
 		case syscall.ENAMETOOLONG:
